@@ -94,7 +94,8 @@ def chain_case(draw):
                                    max_size=2))
     if pre_kind == "untyped_var":
         ctx = ctx or {}
-        ctx["variable"] = {"name": "old"}
+        ctx["variable"] = draw(st.sampled_from([{"name": "old"}, {"name": "old", "unit": "V", "range": [0, 5]},
+                                                {"name": "xy", "dim": 2, "combine": [{"name": "x"}, {"name": "y"}]}]))
     data = draw(st.integers(-5, 5))
     if ctx is not None and draw(st.integers(0, 5)) == 0:
         data = [data, {"det": "A"}]
@@ -178,6 +179,18 @@ def judge_chain(case):
     has_kw = any("kw" in n for n in chain)
     if has_kw:
         classes.append("compose-with-attributes")
+    if not has_kw and (not untyped or untyped[0] == flat[-1]["name"]):
+        # nesting does not matter either: the composition equals the plain sequence of its simple variables
+        flat_vars = [build_var(s_, s_["name"] in untyped) for s_ in flat]
+        r_flat = list(Sequence(*flat_vars).run([start()]))[0]
+        if r_cmp != r_flat:
+            raise Violation("compose-differs-from-sequence",
+                            "(nested compositions vs. the flat sequence of their variables) Compose: %r\nflat Sequence: %r\ncase %s" % (
+                                r_cmp[1], r_flat[1], short(case, 600)))
+    if untyped and untyped[0] == flat[-1]["name"] and r_cmp != r_seq:
+        # a composition is the successive application of its variables, typed or not
+        raise Violation("compose-differs-from-sequence",
+                        "(chain with an untyped variable) Compose: %r\nSequence: %r\ncase %s" % (r_cmp[1], r_seq[1], short(case, 600)))
     if not untyped and has_kw:
         # (the attributes of a nested composition are its own: only Compose == Sequence is judged)
         if r_cmp != r_seq:
@@ -282,6 +295,7 @@ def combine_case(draw):
     return {"vars": vs, "ctx": ctx, "data": data,
             "name": draw(st.one_of(st.none(), st.just("cmb"))),
             "untyped": draw(st.booleans()),
+            "ctype": draw(st.sampled_from([None, None, "point"])),
             "kw": draw(st.dictionaries(st.sampled_from(ATTRS), attr_vals, max_size=1))}
 
 
@@ -291,6 +305,8 @@ def judge_combine(case):
     kw = copy.deepcopy(case["kw"])
     if case["name"]:
         kw["name"] = case["name"]
+    if case.get("ctype"):
+        kw["type"] = case["ctype"]
     c = Combine(*vs, **kw)
     csnap = copy.deepcopy(c.var_context)
     val = mkvalue(case)
@@ -307,6 +323,13 @@ def judge_combine(case):
     for a, v in case["kw"].items():
         if cv.get(a) != v:
             raise Violation("combine-attribute-lost", "%r" % (cv,))
+    if case.get("ctype"):
+        sub = cv.get(case["ctype"])
+        top = dict((k_, v_) for k_, v_ in cv.items() if k_ not in ("type", case["ctype"]))
+        if cv.get("type") != case["ctype"] or not isinstance(sub, dict) or \
+                dict(sub, combine=tuple(sub.get("combine", ()))) != dict(top, combine=tuple(top.get("combine", ()))):
+            raise Violation("combine-type-subcontext-does-not-describe-the-variable",
+                            "context.variable[%r] = %r, the variable is %r" % (case["ctype"], sub, top))
     other = dict((k, v) for k, v in ctx.items() if k != "variable")
     if other != (case["ctx"] or {}):
         raise Violation("context-outside-variable-changed", "%r" % (ctx,))
